@@ -4,6 +4,7 @@ import (
 	"encoding/json"
 	"fmt"
 	"os"
+	"path/filepath"
 	"reflect"
 	"regexp"
 	"sort"
@@ -666,7 +667,7 @@ func TestC16(t *testing.T) {
 		t.Fatalf("property C16 violated: %v", firstViol)
 	}
 	// documentation still marks the expandable fields
-	docText, err := os.ReadFile("/repo/www/docs/configuration.md")
+	docText, err := os.ReadFile(filepath.Join(repoDir(), "www/docs/configuration.md"))
 	if err != nil {
 		t.Fatalf("%v", err)
 	}
